@@ -277,6 +277,7 @@ def ret_components(prog, f, idx):
     X.accumulator_integrity('K12', 'running-totals', ['fil_actor_miner'], 'running totals of amounts')
     X.no_dropped_results('K14', 'results-not-discarded', ['fil_actor_miner'], 'no Result of a call is discarded')
     X.tolerated_failures('K15', 'tolerated-failures', ['fil_actor_miner'], 'tolerated failures are the reviewed ones')
+    X.write_sites_preserved('K16', 'updates-present', 'fil_actor_miner', ['State.fee_debt', 'State.early_terminations', 'Deadline.early_terminations', 'Deadline.faulty_power', 'Partition.early_terminated'], 'state updates do not disappear')
 
 
 
